@@ -14,3 +14,15 @@ pub mod par;
 pub mod refm;
 pub mod report;
 pub mod sml;
+
+/// Re-executes a recorded case without any explorer, whichever engine produced it.
+pub fn replay_case(case: &json::J) -> Vec<report::Viol> {
+    match case.get("engine").and_then(|e| e.as_str()) {
+        Some("e1") => e1::replay(case),
+        Some("e2") => e2::replay(case),
+        Some("e3") => e3::replay(case),
+        Some("e4") => e4::replay(case),
+        Some("e5") => e5::replay(case),
+        _ => vec![],
+    }
+}
